@@ -157,8 +157,10 @@ C02_BOUNDS_Q = ("per query: side to move and ENEMY king square concrete (index =
 C02_BOUNDS_T = C02_BOUNDS_Q.replace("+ 1 VERIF_SEED-chosen shape per kind", "+ 6 VERIF_SEED-chosen shapes per kind")
 PROPS["C02"] = {
     "title": "Applying a legal move yields the correct successor position",
-    "groups": [dict(C02_GRP, only="^c02_", seeded_family=C02_FAM)],
-    "functions": ["chess_movegen::Board::{move_new,move_mut,move_into,move_unchecked,move_unchecked_mut,move_unchecked_into,xor}", "CastleRights::remove_for_sq + CASTLE_RIGHTS_PER_SQ", "RawBoard::{xor,piece_of,piece_of_unchecked}",
+    "groups": [dict(C02_GRP, only="^c02_", seeded_family=C02_FAM),
+               # the real Board::is_legal behind the checked wrappers (membership in the generated list)
+               {"crate": "core", "module": "c10", "only": "c10_is_legal", "flags": NODEF + STUB, "timeout_q": 900}],
+    "functions": ["chess_movegen::Board::{is_legal,move_new,move_mut,move_into,move_unchecked,move_unchecked_mut,move_unchecked_into,xor}", "CastleRights::remove_for_sq + CASTLE_RIGHTS_PER_SQ", "RawBoard::{xor,piece_of,piece_of_unchecked}",
                   "chess_lookup constants CASTLE_MOVES, PAWN_DOUBLE_MOVE, BACKRANK_BB, ROOK_CASTLE_*, PROMOTION_RANK (real)"],
     "bounds_quick": C02_BOUNDS_Q, "bounds_thorough": C02_BOUNDS_T,
     "outside": "enemy-king squares not selected in this run (128 shapes exist per kind; the thorough tier samples more, no tier runs all 768 = ~5 h); more than 8 aligned sliders; clocks at 65535; Display text of the successor",
@@ -200,7 +202,7 @@ PROPS["C17"] = {
 
 PROPS["C10"] = {
     "title": "Move iterator honours its size and filtering contracts",
-    "groups": [{"crate": "core", "module": "c10", "flags": NODEF, "timeout_q": 900, "timeout_t": 3000, "mem_q": 10}],
+    "groups": [{"crate": "core", "module": "c10", "flags": NODEF + STUB, "timeout_q": 900, "timeout_t": 3000, "mem_q": 10}],
     "functions": ["chess_movegen::MoveGen::{next,len,is_empty,size_hint,count,clone,set_mask,remove,remove_move}", "masked generation (legals_masked) is the symbolic destination mask of the C01 unit queries"],
     "bounds_quick": "ONE operation from an ARBITRARY iterator state: <= 6 symbolic entries (source, destination set, promotion flag), cursor, mask, promotion cursor, under the representation invariant (len/size_hint: <= 4 entries - popcount sums); "
                     "the operation's argument (mask / move) and a probe move symbolic. Induction over operations => sequences of any length and interleaving",
@@ -220,7 +222,8 @@ PROPS["C06"] = {
     "functions": ["chess_movegen::Board::{validate,validate_en_passant,validate_castle_rights,opponent_in_check}, RawBoard::has_kings, BoardBuilder::build",
                   "chess_movegen::fen::{parse_fen,parse_number,parse_whitespace,parse_dash,parse_castle_rights} on the fields after the placement"],
     "bounds": "build()/validate: a FULLY symbolic board (eight 64-bit sets forming a partition, side, rights, en-passant file, clocks, hash) - accepted <=> C06's list, fields returned unchanged, documented error kind; <= 8 enemy sliders on the king's rays (loop bound of the pin computation that runs on acceptance). "
-              "Parser: every byte string of every length 0..=6 after a fixed two-king placement (side, rights, en-passant, clocks, trailing bytes: every error arm), and every 1..=5-byte clock field (accepted exactly for [spaces] 1-4 digits, value exact). Lengths are enumerated concretely, contents symbolic.",
+              "Parser: every byte string of every length 0..=6 after a fixed two-king placement (side, rights, en-passant, clocks, trailing bytes: every error arm); every 1..=5-byte clock field (accepted exactly for [spaces] 1-4 digits, value exact); "
+              "every 1..=2-byte en-passant field for either side to move on boards where every file has a double-stepped pawn (accepted exactly for '-' and file a-h + the mover's capture rank, decoded exactly); every 1..=4-byte castling field with all rooks at home (accepted exactly for '-' and the non-empty subsequences of KQkq, decoded exactly). Lengths are enumerated concretely, contents symbolic.",
     "outside": "NOT DECIDED: the placement field on symbolic bytes. Measured: two symbolic bytes inside the 64-square loop already exceed 12 GB (the file counter becomes symbolic and the hand-written slice patterns fork on every byte; a symbolic slice LENGTH alone forks every pattern). "
                "So 'never panics on arbitrary bytes' is decided for the five fields after the placement only, and 'decoded placement == text' only for concrete texts (c05_three_constructors_agree). Rust-level panics (overflow, index, unwrap) are checked; the parser contains no unsafe code.",
     "stubs": [], "assumptions": ["the builder cannot assemble overlapping piece sets (place() refuses occupied squares): boards are symbolic partitions"],
@@ -231,7 +234,11 @@ PROPS["C06"] = {
 }
 PROPS["C05"] = {
     "title": "FEN text and board are inverse representations",
-    "groups": [dict(C06_FUNC, only="^c05_")],
+    "groups": [dict(C06_FUNC, only="^c05_"),
+               # the parser accepts every canonical en-passant / castling field (C06's field queries), and the
+               # builder's place/remove keep the hash a function of the placement (C04's builder queries)
+               dict(C06_FUNC, only="^c06_(en_passant|castling)_field"),
+               {"crate": "core", "module": "c04", "only": "c04_builder", "timeout_q": 900}],
     "functions": ["core::fmt::Display for chess_movegen::Board (piece runs, side, CastleRights::fmt, en-passant square, clocks through core::fmt)", "Board::standard, fen::parse_fen, BoardBuilder::{place,castle_rights,build} on the start position"],
     "bounds": "writer: 5 concretised shapes (start position for either side, en-passant square for White to move and for Black to move, partial rights Kq) with both clocks symbolic inside a digit-count class (1-4 digits; all of 0..9999 is covered across the shapes); "
               "the real writer's bytes and length are compared with a reference canonical text. Three constructors: concrete start position, all fields.",
@@ -244,7 +251,7 @@ PROPS["C05"] = {
     "design_ref": "DESIGN.md section 4 C05/C06",
 }
 
-ENG = {"crate": "engine", "flags": NODEF + STUB, "timeout_q": 1500, "timeout_t": 3000, "mem_q": 30, "jobs": 1}
+ENG = {"crate": "engine", "flags": NODEF + STUB, "timeout_q": 1500, "timeout_t": 5000, "mem_q": 20, "mem_t": 45, "jobs": 3, "jobs_t": 1}
 ENG_STUBS = ["chess_movegen::Board::legals -> a symbolic move list under the iterator invariant, the same on every pass (that the real list is exactly the legal moves: C01; that iterating it yields each once: C10)",
              "Engine::alphabeta at depth 1 -> oracle through the hook Timeout::verif_oracle: arbitrary score + 0..=2 timeout polls, contract A 'not a sentinel unless the limit has expired'",
              "ThreeFold::get -> arbitrary count (only passed down to the search)", "MoveGen::set_mask -> its abstract effect (new mask, cursor rewound; the real raw-pointer compaction is C10/C07)",
@@ -321,7 +328,9 @@ PROPS["LEM"] = {"title": "internal: F-level stubs == S-level geometry", "claimed
                 "groups": [{"crate": "core", "module": "lemmas", "timeout_q": 600}]}
 
 # concretised (side to move, king square) index = turn*64 + square.  e1 = 4, e8 = 60.
-KING_ALWAYS = {"*": [], "king": [4, 124], "attacked_square": [4, 124]}
+# pawn units: also White king f6 / Black king c3 - shapes in which a pawn on its seventh rank can be pinned
+# diagonally by a piece on the last rank (promotion while pinned)
+KING_ALWAYS = {"*": [], "king": [4, 124], "attacked_square": [4, 124], "pawn": [45, 82]}
 PROPS["C01"] = {
     "title": "Generated moves are exactly the legal moves of chess",
     "groups": [
